@@ -962,12 +962,16 @@ def compile_comprehension(compiler, expr, root, parts, final):
                         val = elt.force_expr
                     return ret + asty.Expr(elt, value=asty.Yield(elt, value=val))
                 (tagname, v), parts = parts[0], parts[1:]
+                def at(result):
+                    # A form such as `(do)` compiles to a `Result` with
+                    # no position; fall back to the whole form's.
+                    return expr if result.lineno is None else result
                 if tagname in ("for", "afor"):
                     orelse = orel and orel.pop().stmts
                     node = asty.AsyncFor if tagname == "afor" else asty.For
                     any_async = any_async or tagname == "afor"
                     return v[1] + node(
-                        v[1],
+                        at(v[1]),
                         target=v[0],
                         iter=v[1].force_expr,
                         body=f(parts).stmts,
@@ -976,12 +980,12 @@ def compile_comprehension(compiler, expr, root, parts, final):
                 elif tagname == "setv":
                     return (
                         v[1]
-                        + asty.Assign(v[1], targets=[v[0]], value=v[1].force_expr)
+                        + asty.Assign(at(v[1]), targets=[v[0]], value=v[1].force_expr)
                         + f(parts)
                     )
                 elif tagname == "if":
                     return v + asty.If(
-                        v, test=v.force_expr, body=f(parts).stmts, orelse=[]
+                        at(v), test=v.force_expr, body=f(parts).stmts, orelse=[]
                     )
                 elif tagname == "do":
                     return v + v.expr_as_stmt() + f(parts)
